@@ -64,11 +64,22 @@ def eval_case(case):
     import productmd.treeinfo as pt
     spec = spec_of(case)
     try:
-        obj = B.build(spec)
+        owner = None
+        if case.get("moved"):
+            other = B.seed_src() if spec["tree"]["arch"] != "src" else B.seed_flat()
+            owner = B.build(other)               # the variant objects are made for a tree of the other kind, then added here
+        obj = B.build(spec, _owner=owner)
         text = B.dumps(obj, main_variant=spec["main_variant"])
     except (ValueError, TypeError) as exc:
         return {"status": "refused", "problems": ["%s" % type(exc).__name__]}
     problems = []
+    if spec["main_variant"] is not None:
+        # a later dump of the same object that requests no main variant must fall back to the default again
+        again = ini.as_dict(B.dumps(obj)).get("general", {})
+        first = sorted(v["uid"] for v in spec["variants"])[0]
+        if again.get("variant") != first:
+            problems.append("after dump(main_variant=%r), a dump without main variant writes [general] variant = %r, expected %r"
+                            % (spec["main_variant"], again.get("variant"), first))
     doc = ini.as_dict(text)
     g = doc.get("general")
     if g is None:
@@ -146,8 +157,8 @@ def run_unit(unit, acc):
 
     def visit(spec, trace, parent, last):
         tops = sorted(v["uid"] for v in spec["variants"])
-        for main_choice in [None] + tops:               # the main-variant choice is crossed completely with every state
-            case = {"seed": trace[0], "edits": trace[1:], "main": main_choice}
+        for main_choice, moved in [(m, False) for m in [None] + tops] + [(None, True)]:   # main-variant choice crossed with every state
+            case = {"seed": trace[0], "edits": trace[1:], "main": main_choice, "moved": moved}
             o = eval_case(case)
             acc.ev()
             acc.trace()
@@ -194,7 +205,8 @@ KNOWN = {}
 def describe(tier):
     return {
         "rule": "the C04 treeinfo universe (5 seeds, same edit operations) extended with float build timestamps and crossed with every main-variant choice (None and each "
-                "top-level UID).  Every state is written with dump(main_variant=...), the text is parsed by an "
+                "top-level UID; after an explicit choice a second dump without one must use the default again), negative and fractional "
+                "timestamps, and once with variant objects that were made for a tree of the other kind (binary/src).  Every state is written with dump(main_variant=...), the text is parsed by an "
                 "independent INI reader (mc/models/ini.py) and [general] is compared (a) with the value the property states, "
                 "computed from the spec, (b) with [release]/[tree]/[variant-*] of the same file; (c) for plain names/paths the "
                 "[general] section alone is loaded by the library's pre-productmd reader and must give the same name, version, "
